@@ -177,6 +177,31 @@ class StructuralEq(Case):
             H.check('equal=>same-truth-value', implies(r, F.same(ea, eb)), info="%s == %s" % (a, b))
 
 
+def generated_formulas(conn):
+    """all applications of one connector to argument tuples (with repetition) drawn from a pool of well-sorted terms"""
+    f = Function('f', Sort.integer, Sort.integer)
+    b0, b1, i0, i1 = B('b0'), B('b1'), I('i0'), I('i1')
+    bools = [True, False, b0, b1, mk('not', b0), mk('and', b0, b1), mk('<', i0, i1), mk('distinct', i0, i1, i0)]
+    ints = [0, 7, i0, i1, f(i0)]
+    out = []
+    if conn in ('and', 'or'):
+        for n in (1, 2, 3):
+            out += [mk(conn, *t) for t in itertools.product(bools, repeat=n)]
+    elif conn == 'not':
+        out += [mk('not', t) for t in bools]
+    elif conn == '=>':
+        out += [mk('=>', a, b) for a in bools for b in bools]
+    elif conn in ('<', '<='):
+        out += [mk(conn, a, b) for a in ints for b in ints]
+    elif conn == '=':
+        out += [mk('=', a, b) for a in ints for b in ints] + [mk('=', a, b) for a in bools for b in bools]
+    elif conn == 'distinct':
+        for n in (1, 2, 3):
+            out += [mk('distinct', *t) for t in itertools.product(ints, repeat=n)]
+        out += [mk('=>', mk('distinct', i0, i1, i0), b0), mk('and', mk('distinct', i0, i0), mk('distinct', i1, i0, i1))]
+    return out
+
+
 def concrete_formulas():
     f = Function('f', Sort.integer, Sort.integer)
     b0, b1, b2, i0, i1 = B('b0'), B('b1'), B('b2'), I('i0'), I('i1')
@@ -196,9 +221,15 @@ class TranslateFormula(Case):
     functions = (sfe.translate_formula,)
     assumptions = ("bounded: the listed formula trees (depth <= 3)",)
 
+    def __init__(self, conn=None):
+        self.conn = conn
+        if conn is not None:
+            self.name = "translate_formula[%s]" % conn
+            self.max_paths = 20000
+
     def run(self, H):
         val = valuation(H)
-        fs = concrete_formulas()
+        fs = concrete_formulas() if self.conn is None else generated_formulas(self.conn)
         i = H.choice('formula', list(range(len(fs))))
         f = fs[i]
         out = H.call(sfe.translate_formula, f)
@@ -234,4 +265,5 @@ def cases(tier='quick'):
         cs.append(Constructor('distinct', cf.add_distinct, n, term_shapes, weight=10 ** n))
     cs.append(StructuralEq())
     cs.append(TranslateFormula())
+    cs += [TranslateFormula(c) for c in ('and', 'or', 'not', '=>', '=', '<', '<=', 'distinct')]
     return cs, dict(max_args=maxargs)
